@@ -19,7 +19,7 @@ pub fn def() -> CheckDef {
 fn meta(_ctx: &Ctx) -> Meta {
     Meta {
         level: "exploration",
-        rule: "seeded builder configurations biased to what makes encoders accept partial buffers (1-8 MiB incompressible and compressible files, many files, every compressor and level), then sign / clear / re-sign: in the written bytes of every emitted package the signature header's SHA-256 (and SHA-1/MD5 when present) is recomputed over the serialised header located by the independent decoder, the payload digest over the compressed payload, the alternate payload digest over the archive obtained by calling the codec crates directly, and every file digest over the configured content. distinct_nontrivial = distinct emitted packages whose digests were all recomputed".into(),
+        rule: "seeded builder configurations biased to what makes encoders accept partial buffers (1-8 MiB incompressible and compressible files, many files, every compressor and level), then sign / clear / re-sign: in the written bytes of every emitted package the signature header's SHA-256 (and SHA-1/MD5 when present) is recomputed over the serialised header located by the independent decoder, the payload digest over the compressed payload, the alternate payload digest over the archive obtained by calling the codec crates directly, and every file digest over the configured content. A compressor x level ladder (every level each encoder accepts) with empty files and a path given twice in different spellings is built first; file digests are also compared with the SHA-256 of the content found in the independently decoded archive. distinct_nontrivial = distinct emitted packages whose digests were all recomputed".into(),
         assumptions: vec!["sha2/sha1/md-5 crates; flate2/zstd/liblzma/bzip2 decoders".into()],
         floor_distinct: 20,
     }
@@ -70,10 +70,38 @@ pub fn judge_bytes(bytes: &[u8], cfg: Option<&BuildCfg>) -> Result<Vec<(String, 
         }
         other => v.push(("payload-digest-alt:missing".to_string(), format!("PAYLOADDIGESTALT entry: {other:?}"))),
     }
-    // file digests
+    // file digests against what the archive really holds (independent of the configuration)
+    {
+        let fl = decode_files(bytes, &p.hdr)?;
+        let sizes = fl.sizes.clone();
+        let (entries, _) = cpio::decode(&archive, &|i| sizes.get(i as usize).copied()).map_err(|e| format!("independent cpio decoding failed: {e}"))?;
+        for e in &entries {
+            let idx = if e.index != u32::MAX {
+                Some(e.index as usize)
+            } else {
+                let name = collapse_slashes(e.name.strip_prefix(b".").unwrap_or(&e.name));
+                fl.paths.iter().position(|pp| collapse_slashes(pp) == name)
+            };
+            let Some(i) = idx else { continue };
+            let mode = fl.modes.get(i).copied().unwrap_or(0);
+            if mode & 0o170000 != 0o100000 {
+                continue;
+            }
+            let got = fl.digests.get(i).map(|d| lossy(d)).unwrap_or_default();
+            let want = sha256_hex(&e.data);
+            if got != want {
+                v.push(("file-digest:archived-content".to_string(), format!("{}: FILEDIGESTS has {got:?}, the archived content ({} bytes) hashes to {want}", lossy(&fl.paths[i]), e.data.len())));
+            }
+        }
+    }
+    // file digests against the configuration
     if let Some(cfg) = cfg {
         let fl = decode_files(bytes, &p.hdr)?;
         for f in &cfg.files {
+            // a path given more than once: the builder keeps one of the contents (judged above)
+            if cfg.files.iter().filter(|g| installed_path(&g.dest) == installed_path(&f.dest)).count() > 1 {
+                continue;
+            }
             let want_path = installed_path(&f.dest).into_bytes();
             let Some(i) = fl.paths.iter().position(|pp| collapse_slashes(pp) == want_path) else {
                 v.push(("file-digest:file-missing".to_string(), format!("{} not in the header", installed_path(&f.dest))));
@@ -159,6 +187,17 @@ fn ladder_cfg(rng: &mut Rng, k: usize) -> BuildCfg {
             mtime: 1_500_000_000,
             verify: None,
         });
+    }
+    // the same path given twice with different content, in three spellings
+    if k % 3 == 0 {
+        let spell = ["/opt/ladder/twice.dat", "./opt/ladder/twice.dat", "/opt//ladder/twice.dat"];
+        for (j, size) in [(0usize, 40usize), (1, 41)] {
+            let mut f = cfg.files[1].clone();
+            f.dest = spell[(k / 3 + j * (1 + k % 2)) % 3].into();
+            f.size = size;
+            f.content_seed = rng.next();
+            cfg.files.push(f);
+        }
     }
     cfg.compression = ladder()[k].clone();
     cfg
